@@ -150,17 +150,22 @@ func c08Func(fname string, params string, shape string, mode int, rng *rand.Rand
 	}
 	// callee spellings: short form, full (non-variadic) function type, variadic callee with its full type
 	voidCallee := func() string {
-		switch rng.Intn(4) {
+		switch rng.Intn(6) {
 		case 0:
 			return "void () @vf()"
 		case 1:
 			return "void (...) @vv()"
+		case 2:
+			return "%vfn @vf()" // the function type through a type definition
 		}
 		return "void @vf()"
 	}
 	intCallee := func() string {
-		if rng.Intn(3) == 0 {
+		switch rng.Intn(5) {
+		case 0:
 			return "i32 () @if()"
+		case 1:
+			return "%ifn @if()"
 		}
 		return "i32 @if()"
 	}
@@ -334,7 +339,7 @@ func genC08(ctx *fw.Ctx) []fw.Case {
 	return cases
 }
 
-const c08Prelude = "declare i32 @pers(...)\ndeclare void @vf()\ndeclare void @vv(...)\ndeclare i32 @if()\n@scratch = global i32 0\n"
+const c08Prelude = "%vfn = type void ()\n%ifn = type i32 ()\ndeclare i32 @pers(...)\ndeclare void @vf()\ndeclare void @vv(...)\ndeclare i32 @if()\n@scratch = global i32 0\n"
 
 func c08FuncBatch(r *fw.Rec, shapes []string, base int) {
 	rng := r.Ctx().Rand(fmt.Sprintf("c08/%d", base))
